@@ -128,6 +128,62 @@ func (in *Interp) exactFloat(num *sym.Term, den *big.Int) FloatVal {
 	return FloatVal{}
 }
 
+// fpDiv: IEEE quotient (round to nearest even) of two non-negative doubles xn/xd and yn/yd
+// where the divisor is a known constant. The exact quotient is N/D with N = xn*yd (symbolic)
+// and D = xd*yn (constant); the path forks over its binade k (D*2^(k-1) <= N < D*2^k) and
+// rounds N*2^(53-k)/D to an integer, ties to even.
+func (in *Interp) fpDiv(xn *sym.Term, xd *big.Int, yn *sym.Term, yd *big.Int) Value {
+	f := in.F
+	if !yn.IsConst() || yn.I.Sign() <= 0 {
+		in.fail("unsupported", "float division by a symbolic, zero or negative divisor")
+	}
+	N := f.Mul(xn, f.BigInt(yd))
+	D := new(big.Int).Mul(xd, yn.I)
+	if in.Branch(f.Lt(N, f.Int(0))) {
+		in.fail("unsupported", "float division of a negative value")
+	}
+	if in.Branch(f.Eq(N, f.Int(0))) {
+		return FloatVal{T: f.Int(0), Den: big.NewInt(1)}
+	}
+	if N.Hi == nil {
+		in.fail("unsupported", "float division of a value of unbounded magnitude")
+	}
+	kmax := N.Hi.BitLen() - D.BitLen() + 1
+	kmin := -D.BitLen()
+	for k := kmin; k <= kmax; k++ {
+		// N < D*2^k ?
+		var c *sym.Term
+		if k >= 0 {
+			c = f.Lt(N, f.BigInt(new(big.Int).Lsh(D, uint(k))))
+		} else {
+			c = f.Lt(f.Mul(N, f.BigInt(pow2(uint(-k)))), f.BigInt(D))
+		}
+		if k < kmax && !in.Branch(c) {
+			continue
+		}
+		sh := 53 - k
+		num, den := N, new(big.Int).Set(D)
+		if sh >= 0 {
+			num = f.Mul(N, f.BigInt(pow2(uint(sh))))
+		} else {
+			den.Lsh(den, uint(-sh))
+		}
+		dt := f.BigInt(den)
+		q := f.Div(num, dt)
+		r := f.Mod(num, dt)
+		r2 := f.Mul(r, f.Int(2))
+		odd := f.Eq(f.Mod(q, f.Int(2)), f.Int(1))
+		up := f.Or(f.Gt(r2, dt), f.And(f.Eq(r2, dt), odd))
+		rq := f.Add(q, f.Ite(up, f.Int(1), f.Int(0)))
+		if sh >= 0 {
+			return FloatVal{T: rq, Den: pow2(uint(sh))}
+		}
+		return FloatVal{T: f.Mul(rq, f.BigInt(pow2(uint(-sh)))), Den: big.NewInt(1)}
+	}
+	in.fail("unsupported", "float division: binade not found")
+	return nil
+}
+
 func (in *Interp) fpBinop(op token.Token, x, y FloatVal) Value {
 	f := in.F
 	xn, xd := in.ratOf(x)
@@ -144,7 +200,7 @@ func (in *Interp) fpBinop(op token.Token, x, y FloatVal) Value {
 		}
 		return in.exactFloat(f.Sub(a, b), new(big.Int).Mul(xd, yd))
 	case token.QUO:
-		in.fail("unsupported", "symbolic float division")
+		return in.fpDiv(xn, xd, yn, yd)
 	}
 	l := f.Mul(xn, f.BigInt(yd))
 	r := f.Mul(yn, f.BigInt(xd))
